@@ -168,3 +168,4 @@ func vSetCanClone(on bool)                    {}
 func vFSList(dir string) []string             { return nil }
 func vSetBlockSize(n int) {}
 func vClones() int        { return 0 }
+func vSchedFixed(on bool)        {}
